@@ -20,4 +20,128 @@ CHECKS = {
                         "shift amounts are 0..199; z_number(string) is trusted to parse decimal (cross-checked by round trips)"],
         "min_nontrivial_frac": 0.2,
     },
+    "C07": {
+        "jobs": [job("h_wto", 40000, 8, 400000, 16, fuzz_secs=240, fuzz_procs=8)],
+        "rule": "choice-tape digraphs with 1..14 nodes (4 shapes: raw edge list, bitmask sparse..dense, structured seq/if/while/do-while "
+                "plus gotos, chain with back/forward jumps), any entry node, decoded successor insertion order; each graph is checked as "
+                "wto<cfg_ref>, its clone(), wto<cfg_rev> and wto<call_graph_ref>; non-trivial = two cycles nested or sharing a node "
+                "(nesting depth >= 2, component inside component, or >= 2 back edges to one head); distinct = hash of the edge list+entry+order",
+        "assumptions": ["parallel edges do not exist (both graph types deduplicate)", "nesting() of a node unreachable from the entry is only counted (undocumented)"],
+        "min_nontrivial_frac": 0.2,
+    },
+    "C19": {
+        "jobs": [job("h_patricia", 12000, 8, 150000, 16, fuzz_secs=240, fuzz_procs=8)],
+        "rule": "operation histories (<=32 steps) over 4 separate_domain environments sharing structure through copies, keys = indexable with "
+                "arbitrary 64-bit indices (dense, 2^k, 2^k+-1, 2^63+d, clustered prefixes), value lattices interval/constant/boolean/discrete_domain, "
+                "compared after every step with a std::map model (at, find, iteration, size, is_top, is_bottom, <= between all pairs); plus "
+                "patricia_tree_set, discrete_domain and set_domain vs std::set; non-trivial = two environments with overlapping but different key "
+                "sets were merged or compared and >= 6 distinct keys were used; distinct = hash of the decoded history",
+        "assumptions": ["rename targets are fresh (documented precondition)", "join(k,bottom) is not generated (legality unclear)",
+                        "size()/iteration are not called on top (they raise by design)"],
+        "min_nontrivial_frac": 0.2,
+    },
+    "C08": {
+        "jobs": [job("h_scalar", 40000, 8, 500000, 16, fuzz_secs=240, fuzz_procs=8)],
+        "rule": "pairs of abstract scalars (bound, interval<z>, interval<q>, congruence, interval_congruence, sign, constant, small_range, "
+                "boolean_value, dis_interval) built through public constructors/operators x every operation; up to 8 concrete members are sampled "
+                "per operand (bounds, neighbours, 0, +-1, 2^40/2^70 for infinite bounds, b+a*k) and every defined concrete result must be a member "
+                "of the abstract result; tightness of interval<z> + - neg * | & against an independent corner model; non-trivial = both operands "
+                "neither top nor bottom and a concrete result defined for some sampled pair; distinct = hash of operands+operation",
+        "assumptions": ["udiv/urem/lshr only on non-negative operands, shifts only by 0..64, division by 0 skipped (DESIGN 2.3)",
+                        "CRAB_ERROR raised inside an operation is counted as diagnostic, not as violation"],
+        "min_nontrivial_frac": 0.2,
+    },
+    "C13": {
+        "jobs": [job("h_wrapint", 40000, 8, 500000, 16, fuzz_secs=240, fuzz_procs=8)],
+        "rule": "(a) wrapint: widths 1..64, operands biased to 0, 1, 2^(w-1)+-1, 2^w-1, every public operation against a uint64/__int128 reference; "
+                "(b) wrapped_interval: (start,end,w) incl. pole-crossing, top, bottom, singletons, every operation; exhaustive over gamma(a) x gamma(b) "
+                "for w <= 6, sampled members otherwise, membership through at(wrapint); non-trivial = (a) the w-bit result differs from the unbounded "
+                "result or a signed op has a negative operand, (b) an operand crosses a pole; distinct = hash of width+operands+operation",
+        "assumptions": ["equal bitwidths, divisor != 0, shift amount < w, keep_lower(k) with 1 <= k <= w (preconditions in the code)",
+                        "INT_MIN / -1 is skipped and counted (undocumented)", "widening requires w > 1 (assert in the code)",
+                        "part (c) of the design (programs under machine-integer semantics on the wrapped-interval domain) is not built yet"],
+        "min_nontrivial_frac": 0.2,
+    },
+    "C06": {
+        "jobs": [job("h_fixpo_exact", 15000, 8, 150000, 16, fuzz_secs=180, fuzz_procs=8)],
+        "rule": "part 1 (3/4 of cases): digraph CFGs of 1..10 blocks over a finite state space Z_m^k (<= 64 states) with harness-interpreted finite "
+                "statements, a client subclass of interleaved_fwd_fixpoint_iterator over 64-bit state sets (join=widening=union, meet=narrowing="
+                "intersection), any start block with empty WTO nesting, 0..3 assumption sets, delays 0..5, descending 0..3, compared for EQUALITY "
+                "with a naive round-robin least solution; part 2 (1/4): counted-loop programs over the interval domain with bounds around the "
+                "widening delay, compared with the harness' own join-only iteration and the domain's widening-call counter; non-trivial = a cycle "
+                "reachable from the start block; distinct = hash of graph+statements+parameters",
+        "assumptions": ["start blocks have empty WTO nesting (the property's own wording)", "thresholds = 0",
+                        "part 2 uses only exact monotone interval transfer functions (x:=c, x:=x+c, x:=y+c, single-variable assumes)"],
+        "min_nontrivial_frac": 0.2,
+    },
+}
+FWD_Q = ["interval", "sdbm", "soct", "ric", "term_int", "bool_int"]
+HIST_Q = ["interval", "sdbm", "soct", "ric", "term_int", "bool_int"]
+HISTG_Q = ["interval", "sdbm", "bool_int"]
+PROG_ASSUME = ["concrete semantics of DESIGN.md section 2.3: mathematical integers, truncating sdiv/srem, udiv/urem/lshr only on non-negative operands, "
+               "shifts by 0..64, zext only of values in [0,2^w); executions leaving this model are truncated and counted, never judged",
+               "int64-weight DBM domains (the default zones/octagons): constants <= 10^6 and cases where an abstract bound or a concrete value "
+               "exceeds 2^40 are truncated (overflow is documented as unchecked in graph_config.hpp)"]
+CHECKS["C01"] = {
+    "jobs": [job("h_fwd-" + d, 700, 2, 12000, 4, fuzz_secs=300, fuzz_procs=2) for d in FWD_Q],
+    "rule": "choice-tape CrabIR programs (structured seq/if/while nests and unstructured digraphs up to 10 blocks, 2-6 ints, optional 64-bit ints, "
+            "booleans for boolean domains, all statement kinds the domain supports) x widening delay 0-5, descending iterations 0-3, thresholds "
+            "{0,1,5,20}, liveness on/off, initial value top or constraints around a first state; 4-12 concrete executions per program; after every "
+            "block entry, every statement (re-propagated with the analyzer's transformer) and every block exit the concrete state must be a member "
+            "(M1 not bottom, M2 at()/operator[], M3 exported constraints incl. disjunctive, M4 point meet, M5 entailment probes) of the reported "
+            "invariant; non-trivial = an execution of >= 3 blocks checked against an invariant that is neither top nor bottom; distinct = hash of "
+            "the printed CFG + parameters",
+    "assumptions": PROG_ASSUME + ["alternative entry blocks and assumption maps are explored by the C06 harness, not yet by this one"],
+    "min_nontrivial_frac": 0.1,
+    "min_class_frac": {"has_loop": 0.2},
+}
+CHECKS["C02"] = {
+    "jobs": [job("h_fwd-" + d, 700, 2, 12000, 4, fuzz_secs=300, fuzz_procs=2) for d in FWD_Q],
+    "rule": "same programs as C01 with numerical and boolean assertions tagged by debug_info ids; the intra-procedural assertion checker's per-assertion "
+            "verdict is compared with 4-12 concrete executions: SAFE and violated by an execution, or UNREACHABLE and reached by an execution, is a "
+            "violation; non-trivial = >= 1 assertion classified safe/unreachable and >= 1 execution reaching an assertion; distinct = hash of CFG+parameters",
+    "assumptions": PROG_ASSUME + ["only the intra-procedural forward analyzer + checker so far (forward+backward and inter-procedural analyzers: harnesses not built yet)"],
+    "min_nontrivial_frac": 0.03,
+}
+CHECKS["C03"] = {
+    "jobs": [job("h_hist-" + d, 2000, 2, 40000, 4, fuzz_secs=300, fuzz_procs=2, env={"VERIF_TAPE_SCALE": "12"}) for d in HIST_Q],
+    "rule": "operation histories of 3-40 steps over 6 abstract values and 2-5 ints (+64-bit int, booleans for boolean domains, 3 fresh names): assign, "
+            "arithmetic/bitwise/cast apply, select, assume (1-2 constraints, non-unit coefficients, ==, !=, <), boolean operations, weak_assign, "
+            "forget/project/rename/expand, join, meet, widening (with thresholds), narrowing of decreasing pairs, copies, queries; every value "
+            "carries <= 12 witness states that are members by construction (images under the concrete operation); after each step all witnesses of "
+            "the result must be members (M1-M5); non-trivial = a checked value neither top nor bottom with witnesses after >= 3 steps and >= 2 "
+            "non-trivial values; distinct = hash of the decoded history",
+    "assumptions": PROG_ASSUME,
+    "min_nontrivial_frac": 0.1,
+}
+CHECKS["C04"] = {
+    "jobs": [job("h_hist-" + d, 2000, 2, 40000, 4, fuzz_secs=300, fuzz_procs=2, env={"VERIF_TAPE_SCALE": "12"}) for d in HIST_Q],
+    "rule": "the C03 histories with the lattice laws checked at every step: x <= x (also on a copy), bottom <= x, x <= top, A <= B answering yes implies "
+            "every witness of A is a member of B (A,B arbitrary reachable values, or B derived from A by join/forget to obtain yes-answers), witnesses of "
+            "both operands in the join, common witnesses in the meet, is_bottom/is_top after set_to_*/make_*, not is_bottom while a witness exists; "
+            "non-trivial = >= 1 yes-answer of <= and >= 2 values neither top nor bottom; distinct = hash of the decoded history",
+    "assumptions": PROG_ASSUME,
+    "min_nontrivial_frac": 0.1,
+}
+CHECKS["C05"] = {
+    "jobs": [job("h_hist-" + d, 1500, 2, 30000, 4, fuzz_secs=300, fuzz_procs=2, env={"VERIF_TAPE_SCALE": "12"}) for d in HIST_Q] +
+            [job("h_fwd-" + d, 500, 1, 8000, 2) for d in FWD_Q],
+    "rule": "(a) every forward analysis of the C01 programs runs under a deterministic budget of 5*10^6 fixpoint/transfer events (ordinary runs: "
+            "10-10^3); (b) widening chains x_{i+1} = x_i widen (x_i join?) f(x_i) for a decoded loop body f, guard, optional thresholds and "
+            "interleaved normalising queries: both arguments' witnesses must be members of each result and the number of strict increases (by the "
+            "domain's own <=) must stay below 8((n+1)^2 (T+3)+4); plus widening/narrowing steps inside histories; non-trivial = (a) a program with a "
+            "loop, (b) a chain with >= 2 strict increases; distinct = hash of the decoded case",
+    "assumptions": PROG_ASSUME + ["backward and inter-procedural analyses are not yet under the watchdog (harnesses not built yet)"],
+    "min_nontrivial_frac": 0.05,
+}
+CHECKS["C16"] = {
+    "jobs": [job("h_hist-" + d, 1500, 2, 30000, 4, fuzz_secs=300, fuzz_procs=2, env={"VERIF_TAPE_SCALE": "12"}) for d in HIST_Q] +
+            [job("h_histg-" + d, 1500, 2, 30000, 4, env={"VERIF_TAPE_SCALE": "12"}) for d in HISTG_Q],
+    "rule": "the C03 histories with (i) copy isolation: after a copy, an observation snapshot (is_bottom, is_top, at(v) for all v, 8 entailment probes) "
+            "of every value not operated on by a step must be unchanged after that step and its witnesses must remain members; (ii) queries, "
+            "operator[], normalize(), minimize() leave the value <=-equal to a pre-copy and keep all witnesses; (iii) h_histg: the same history on D "
+            "and on abstract_domain_ref<var>(D) must give equal snapshots and equal <= answers after every step; non-trivial = a copy followed by "
+            ">= 2 mutations and >= 1 observation of an untouched value; distinct = hash of the decoded history",
+    "assumptions": PROG_ASSUME + ["snapshots are taken twice at copy time so that lazily cached representation changes settle before comparison"],
+    "min_nontrivial_frac": 0.05,
 }
